@@ -90,7 +90,8 @@ func ruleD1(r *Run) {
 				}
 			}
 			for _, ch := range chans {
-				for _, l := range p.Leaves(ch, provOpts{}) {
+				// IntoCallees: the channel may come out of a lookup helper (takeReply)
+				for _, l := range p.Leaves(ch, provOpts{IntoCallees: true}) {
 					if strings.HasPrefix(l, "elem:/") {
 						tables[strings.TrimPrefix(l, "elem:")] = true
 					}
